@@ -35,9 +35,9 @@ Print Assumptions C02_second_read_equals_first_when_canonical.
    readers of converters.go is within the element's width and trimmed, except that a variable-length
    element longer than its width is cut after trimming and the cut may end in a blank (the recorded
    finding; `cut_leaves_a_blank` in Theory/ElementValues.v is the witness). Lifted to whole tags: for the
-   55 tags whose Parse program stores only such values, every element of a parsed tag is trimmed or such a
+   54 tags whose Parse program stores only such values, every element of a parsed tag is trimmed or such a
    cut. Not proved: the message-level statement "the second read equals the first for every accepted text"
-   (false on the pinned tree, see the findings), and the five tags with raw fixed-position slices. *)
+   (false on the pinned tree, see the findings), and the six tags with raw fixed-position slices ({2000} keeps its 12 characters as read: validation then demands digits). *)
 From Wire Require Import Model.Converters Model.Layout Model.Codec Theory.ElementValues.
 From WireGen Require Import Tags.
 
@@ -62,11 +62,11 @@ Proof.
 Qed.
 Print Assumptions C02_parsed_tag_values_partial.
 
-Example trimming_tags_are_most : length trimming_tags = 55 /\ length tags = 60.
+Example trimming_tags_are_most : length trimming_tags = 54 /\ length tags = 60.
 Proof. vm_compute. split; reflexivity. Qed.
 
 (* partial, message level: every tag of a message the reader accepts is what that tag's own Parse returned
-   for one of the segments (each dispatch arm fills its own record: per-run obligation), hence - for the 55
+   for one of the segments (each dispatch arm fills its own record: per-run obligation), hence - for the 54
    tags above - each of its elements is trimmed, or the cut of a trimmed over-width value *)
 From Wire Require Import Theory.DispatchFacts.
 
